@@ -260,9 +260,16 @@ def run_observed(cfg, capture=(), weather_df=None, model=None, step_hook=None, m
                 break
     tr.finished = bool(m._clock_struct.model_is_finished)
     if tr.n:
-        tr.flux = _table(m.get_water_flux())
-        tr.storage = _table(m.get_water_storage())
-        tr.growth = _table(m.get_crop_growth())
+        try:
+            tr.flux = _table(m.get_water_flux())
+            tr.storage = _table(m.get_water_storage())
+            tr.growth = _table(m.get_crop_growth())
+        except ValueError:
+            # the very first run_model call raised: the model does not count as "executed" and the public
+            # getters refuse; the rows written by the completed part of that step are still in the tables
+            tr.flux = _table(m._outputs.water_flux)
+            tr.storage = _table(m._outputs.water_storage)
+            tr.growth = _table(m._outputs.crop_growth)
         tr.summary = m._outputs.final_stats
     return tr.arrays()
 
